@@ -47,7 +47,10 @@ def _strategy(kinds):
             return {
                 "cfg": cfg,
                 "primary": draw(gen.vector_field_spec(ncomp_primary, kinds=fk, max_mag_exp=6)),
-                "velocity": draw(gen.vector_field_spec(dim, kinds=fk + ["zero"], max_mag_exp=4)),
+                # passive transport: favour sign-changing velocities so that both upwind branches occur on the grid
+                "velocity": draw(gen.vector_field_spec(dim, kinds=(fk + ["zero"]) if cfg["sim"].startswith("ns")
+                                                       else ["poly", "noise", "mixed", "checker", "noise", "mixed", "constant"],
+                                                       max_mag_exp=4)),
                 "forcing": draw(gen.vector_field_spec(dim, kinds=fk + ["zero"], max_mag_exp=6)),
                 "free_stream": draw(st.lists(gen.floats(-4.0, 4.0, 32), min_size=dim, max_size=dim)),
                 "dt_frac": draw(gen.floats(0.05, 2.0, 32)),
